@@ -350,6 +350,56 @@ pub fn req_line(toks: &[&str]) -> String {
     format!("{} ; conv={} ; fs={}", r1, conv, listing(&root))
 }
 
+/// an upload that the client aborts: WRQ, `nblocks` full blocks, then an ERROR packet (or silence is not
+/// used: real time-outs are too slow); what is left in the sandbox shows clean-on-error / keep-on-error
+pub fn abort_line(toks: &[&str]) -> String {
+    if toks.len() != 6 {
+        return "bad-op".into();
+    }
+    let (Some(root_b), Some(dgram), Ok(nblocks)) = (unhex(toks[1]), unhex(toks[4]), toks[5].parse::<usize>()) else {
+        return "bad-op".into();
+    };
+    let root = PathBuf::from(String::from_utf8(root_b).unwrap());
+    let fl = parse_flags(toks[2]);
+    let port = server_port(&root, toks[2]);
+    if !reset_sandbox(&root, &fl, toks[3]) {
+        return "bad-op".into();
+    }
+    let listener: SocketAddr = format!("127.0.0.1:{}", port).parse().unwrap();
+    let sock = UdpSocket::bind("127.0.0.1:0").unwrap();
+    sock.send_to(&dgram, listener).unwrap();
+    let mut r1 = "r1=- none".to_string();
+    let mut acks: Vec<String> = vec![];
+    if let Some((Ok(p), from, _)) = recv_packet(&sock, ms(40, 1500)) {
+        let cls = if from == listener { "L" } else { "T" };
+        r1 = format!("r1={} {}", cls, show_reply(&p));
+        let mut b = 512usize;
+        if let Packet::Oack(opts) = &p {
+            for o in opts {
+                if o.option == tftpd::OptionType::BlockSize {
+                    b = o.value;
+                }
+            }
+        }
+        if matches!(p, Packet::Oack(_) | Packet::Ack(0)) {
+            for k in 1..=nblocks {
+                let d = Packet::Data { block_num: k as u16, data: gen_bytes(b, k) };
+                sock.send_to(&d.serialize().unwrap(), from).unwrap();
+            }
+            while let Some((p, _f, _)) = recv_packet(&sock, ms(15, 800)) {
+                if let Ok(Packet::Ack(n)) = p {
+                    acks.push(format!("A{}", n));
+                }
+            }
+            send_error(&sock, &from);
+            // the worker removes (or keeps) the partial file asynchronously
+            std::thread::sleep(ms(40, 600));
+        }
+    }
+    let a = if acks.is_empty() { ".".to_string() } else { acks.join(" ") };
+    format!("{} ; conv={} ; fs={}", r1, a, listing(&root))
+}
+
 /// a batch of hostile datagrams from several sources, then a probe request
 pub fn storm_line(toks: &[&str]) -> String {
     if toks.len() < 5 {
